@@ -144,10 +144,10 @@ func HSharedTypes() {
 	t := schemas.ByName(name)
 	g := &refschema.G{}
 	v := g.Gen(t)
-	op := nd.Choose("op", 4)
+	op := nd.Choose("op", 5)
 	var sharedProto schema.TypedPrototype
 	var sharedNode datamodel.Node
-	if op >= 2 {
+	if op == 2 || op == 3 {
 		// a prototype / node made before sharing
 		sharedProto = bindnode.Prototype(schemas.GoPtr(name), ts.TypeByName(name))
 		nb := sharedProto.NewBuilder()
@@ -198,6 +198,18 @@ func HSharedTypes() {
 			nb2 := sharedProto.Representation().NewBuilder()
 			nd.Assert(refschema.Assign(nb2, refschema.Repr(t, v)) == nil, "build from a shared representation prototype")
 			nd.Assert(datamodel.DeepEqual(nb.Build(), nb2.Build()), "both builds are equal")
+		case 4: // copying types out of the shared type system leaves it as it was
+			cl := schema.Clone(ts.TypeByName(name))
+			nd.Assert(cl != nil && cl.Name() == name, "Clone")
+			fresh := &schema.TypeSystem{}
+			fresh.Init()
+			schema.MergeTypeSystem(fresh, ts, true)
+			nd.Assert(fresh.TypeByName(name) != nil, "MergeTypeSystem copies the type")
+			if st, ok := ts.TypeByName(name).(*schema.TypeStruct); ok {
+				for _, f := range st.Fields() {
+					nd.Assert(f.Parent() == st && f.Type() == ts.TypeByName(string(f.Type().Name())), "the shared struct's fields still belong to it and resolve in its own type system")
+				}
+			}
 		case 3: // read and encode a shared reflection-bound node
 			nd.Assert(refval.Equal(refval.Of(sharedNode), v), "shared typed node reads as built")
 			var b bytes.Buffer
@@ -232,7 +244,7 @@ func HSharedWalk() {
 			lnk = gen.LinkOf(c)
 		}
 	}
-	op := nd.Choose("op", 6)
+	op := nd.Choose("op", 7)
 	nd.Freeze()
 	nd.Concurrent(func() { sharedWalk(op, g, ls, cfg, sel, sub, lnk) })
 	nd.Thaw()
@@ -259,8 +271,44 @@ func sharedWalk(op int, g *graph.G, ls linking.LinkSystem, cfg *traversal.Config
 		lp := lnk.(cidlink.Link).Prototype()
 		_, err := ls.ComputeLink(lp, g.Root)
 		nd.Assert(err == nil, "compute link")
+	case 6: // results stay valid while the link system goes on serving loads (to anyone)
+		links := allLinks(g.V, nil)
+		var raws [][]byte
+		var nodes []datamodel.Node
+		for round := 0; round < 2; round++ {
+			for _, l := range links {
+				r, err := ls.LoadRaw(linking.LinkContext{}, l)
+				nd.Assert(err == nil, "load raw")
+				raws = append(raws, r)
+				n, r2, err := ls.LoadPlusRaw(linking.LinkContext{}, l, basicnode.Prototype.Any)
+				nd.Assert(err == nil, "load plus raw")
+				raws, nodes = append(raws, r2), append(nodes, n)
+			}
+		}
+		k := 0
+		for round := 0; round < 2; round++ {
+			for i, l := range links {
+				want := g.Store.Bag[string(l.(cidlink.Link).Cid.Hash())]
+				nd.Assert(nd.EqBytes(raws[k], want) && nd.EqBytes(raws[k+1], want), "raw bytes obtained from a load are still the block after later loads")
+				k += 2
+				var b bytes.Buffer
+				nd.Assert(dagcbor.Encode(nodes[round*len(links)+i], &b) == nil && nd.EqBytes(b.Bytes(), want), "a node obtained from a load still is the block's value after later loads")
+			}
+		}
 	case 5:
 		out, err := traversal.Progress{Cfg: cfg}.WalkTransforming(g.Root, sel, func(p traversal.Progress, n datamodel.Node) (datamodel.Node, error) { return n, nil })
 		nd.Assert(err == nil && out != nil, "identity walking transform")
 	}
+}
+
+// allLinks: every link of the graph, through the blocks.
+func allLinks(v *refval.V, acc []datamodel.Link) []datamodel.Link {
+	if v.K == refval.Link {
+		acc = append(acc, gen.LinkOf(v))
+		return allLinks(v.T, acc)
+	}
+	for _, c := range v.L {
+		acc = allLinks(c, acc)
+	}
+	return acc
 }
